@@ -153,7 +153,11 @@ pub enum Entry {
     Bid2(String, BidOrderV2),
     Info(ContractInfoV3),
     Version(VersionInfoV1),
+    /// an entry under one of the four known keys / prefixes that does not decode
     Unknown(String),
+    /// a storage item outside the book, the configuration and the version record (bookkeeping
+    /// the properties do not speak about): counted, not judged
+    Foreign(String),
 }
 
 #[allow(deprecated)]
@@ -188,7 +192,10 @@ pub fn decode_entry(k: &[u8], v: &[u8]) -> Entry {
             return Entry::Version(i);
         }
     }
-    Entry::Unknown(hexk())
+    if k == b"contract_info" || k == b"version_info" {
+        return Entry::Unknown(hexk());
+    }
+    Entry::Foreign(hexk())
 }
 
 pub fn err_kind(e: &ContractError) -> String {
@@ -325,13 +332,18 @@ impl World {
         let mut lines = vec![];
         for (k, v) in after {
             if before.get(k) != Some(v) {
+                if let Entry::Foreign(h) = decode_entry(k, v) {
+                    self.stats.branch(&format!("foreign_key_written:{}", String::from_utf8_lossy(k).chars().filter(|c| c.is_ascii_graphic()).take(24).collect::<String>()));
+                    let _ = h;
+                    continue;
+                }
                 lines.push(match decode_entry(k, v) {
                     Entry::Ask(key, a) => format!("DA {} {}", wire::enc(&key), wire::ask(&a)),
                     Entry::Bid3(key, b) => format!("DB3 {} {}", wire::enc(&key), wire::bid3(&b)),
                     Entry::Bid2(key, b) => format!("DB2 {} {}", wire::enc(&key), wire::bid2(&b)),
                     Entry::Info(i) => format!("DI {}", wire::info(&i)),
                     Entry::Version(v) => format!("DV {} {}", wire::enc(&v.definition), wire::enc(&v.version)),
-                    Entry::Unknown(h) => format!("DU {}", wire::enc(&h)),
+                    Entry::Unknown(h) | Entry::Foreign(h) => format!("DU {}", wire::enc(&h)),
                 });
             }
         }
@@ -351,7 +363,11 @@ impl World {
                         continue;
                     }
                 }
-                lines.push(format!("DU {}", wire::enc(&k.iter().map(|b| format!("{:02x}", b)).collect::<String>())));
+                if k == b"contract_info" || k == b"version_info" {
+                    lines.push(format!("DU {}", wire::enc(&k.iter().map(|b| format!("{:02x}", b)).collect::<String>())));
+                } else {
+                    self.stats.branch("foreign_key_removed");
+                }
             }
         }
         for l in lines {
@@ -517,6 +533,8 @@ impl World {
             ExecuteMsg::RejectAsk { .. } => "reject_ask",
             ExecuteMsg::RejectBid { .. } => "reject_bid",
             ExecuteMsg::ModifyContract { .. } => "modify_contract",
+            #[allow(unreachable_patterns)]
+            _ => "unknown_exec",
         }
     }
 
@@ -605,6 +623,8 @@ impl World {
                     QueryMsg::GetContractInfo {} => from_slice::<ContractInfoV3>(bin.as_slice()).map(|i| format!("QI {}", wire::info(&i))),
                     QueryMsg::GetVersionInfo {} => from_slice::<VersionInfoV1>(bin.as_slice())
                         .map(|v| format!("QV {} {}", wire::enc(&v.definition), wire::enc(&v.version))),
+                    #[allow(unreachable_patterns)]
+                    _ => Ok("QU".to_string()),
                 };
                 if let Ok(l) = l {
                     self.line(&l);
